@@ -133,6 +133,10 @@ func minDictDecode(enc []byte) (tag string, out []byte) {
 // independentChecks adds the oracle "accepted by an independent LZMA decoder, which returns the
 // (filtered) input" for every decoder available and returns which ones judged.
 func independentChecks(out *core.Outcome, impl string, enc, inner []byte, xzLimit int) string {
+	return independentChecksLim(out, impl, enc, inner, 1<<30, xzLimit)
+}
+
+func independentChecksLim(out *core.Outcome, impl string, enc, inner []byte, pyLimit, xzLimit int) string {
 	judge := func(what, tag string, got []byte) {
 		g := tag
 		if tag == "ok" && !bytes.Equal(got, inner) {
@@ -142,9 +146,11 @@ func independentChecks(out *core.Outcome, impl string, enc, inner []byte, xzLimi
 			Sig: "lzma-independent:" + impl})
 	}
 	indep := ""
-	if tag, pout := liblzmaDecode(enc); tag != "unavailable" {
-		indep += "+liblzma"
-		judge("liblzma/python", tag, pout)
+	if len(inner) <= pyLimit {
+		if tag, pout := liblzmaDecode(enc); tag != "unavailable" {
+			indep += "+liblzma"
+			judge("liblzma/python", tag, pout)
+		}
 	}
 	if len(inner) <= xzLimit {
 		if tag, xout := xzDecode(enc); tag != "unavailable" {
